@@ -69,6 +69,17 @@ impl Streams {
             position,
         } = value_descriptor;
 
+        #[cfg(aquavm_verif)]
+        {
+            use crate::execution_step::value_types::TracePosOperate;
+            crate::verif_hooks::emit(crate::verif_hooks::Event::StreamAdd {
+                name: name.to_string(),
+                generation: generation.to_string(),
+                value: value.get_result().to_string(),
+                trace_pos: value.get_trace_pos().into(),
+            });
+        }
+
         match self.get_mut(name, position) {
             Some(stream) => stream.add_value(value, generation)?,
             None => {
@@ -86,6 +97,8 @@ impl Streams {
 
     pub(crate) fn meet_scope_start(&mut self, name: impl Into<String>, span: Span) {
         let name = name.into();
+        #[cfg(aquavm_verif)]
+        crate::verif_hooks::emit(crate::verif_hooks::Event::ScopeStart { name: name.clone() });
 
         let new_stream = Stream::new();
         let new_descriptor = StreamDescriptor::restricted(new_stream, span);
@@ -100,6 +113,8 @@ impl Streams {
     }
 
     pub(crate) fn meet_scope_end(&mut self, name: String, trace_ctx: &mut TraceHandler) -> ExecutionResult<()> {
+        #[cfg(aquavm_verif)]
+        crate::verif_hooks::emit(crate::verif_hooks::Event::ScopeEnd { name: name.clone() });
         // unwraps are safe here because met_scope_end must be called after met_scope_start
         let stream_descriptors = self.streams.get_mut(&name).unwrap();
         // delete a stream after exit from a scope
